@@ -1,6 +1,7 @@
 package main
 
 import (
+	"golang.org/x/tools/go/callgraph"
 	"fmt"
 	"go/constant"
 	"go/token"
@@ -138,7 +139,12 @@ func (p *prover) numberLoads() {
 			}
 			k := key{fa.X, fa.Field}
 			if f, ok := first[k]; ok {
-				p.vn[u] = f
+				// another function may assign the field: then a call between the two loads may have changed it
+				if p.prog == nil || !p.prog.storedElsewhere(fk, p.fn) || !p.storingCallBetween(fk, f, u) {
+					p.vn[u] = f
+					continue
+				}
+				first[k] = u // start a new run of equal loads from here
 				continue
 			}
 			// a load can serve as the canonical value only if every store to the field executes before it
@@ -153,6 +159,154 @@ func (p *prover) numberLoads() {
 			}
 		}
 	}
+}
+
+// storedElsewhere: some acra function other than self stores to the field.
+func (p *Program) storedElsewhere(k fieldKey, self *ssa.Function) bool {
+	if p.fieldStoreFns == nil {
+		p.fieldStoreFns = map[fieldKey]map[*ssa.Function]bool{}
+		for _, fn := range p.srcFns {
+			for _, b := range fn.Blocks {
+				for _, in := range b.Instrs {
+					if st, ok := in.(*ssa.Store); ok {
+						if fa, ok := st.Addr.(*ssa.FieldAddr); ok {
+							if fk, ok := fieldKeyOf(fa.X.Type(), fa.Field); ok {
+								if p.fieldStoreFns[fk] == nil {
+									p.fieldStoreFns[fk] = map[*ssa.Function]bool{}
+								}
+								p.fieldStoreFns[fk][fn] = true
+							}
+						}
+					}
+				}
+			}
+		}
+	}
+	for fn := range p.fieldStoreFns[k] {
+		if fn != self {
+			return true
+		}
+	}
+	return false
+}
+
+// mayStore: functions from which a function that stores to field k is reachable (reverse closure over the call graph).
+func (p *Program) mayStore(k fieldKey) map[*ssa.Function]bool {
+	if p.mayStoreC == nil {
+		p.mayStoreC = map[fieldKey]map[*ssa.Function]bool{}
+	}
+	if m, ok := p.mayStoreC[k]; ok {
+		return m
+	}
+	p.storedElsewhere(k, nil)
+	out := map[*ssa.Function]bool{}
+	var work []*ssa.Function
+	for fn := range p.fieldStoreFns[k] {
+		out[fn] = true
+		work = append(work, fn)
+	}
+	cg := p.CallGraph()
+	for len(work) > 0 {
+		fn := work[len(work)-1]
+		work = work[:len(work)-1]
+		if n := cg.Nodes[fn]; n != nil {
+			for _, e := range n.In {
+				if e.Caller != nil && e.Caller.Func != nil && !out[e.Caller.Func] {
+					out[e.Caller.Func] = true
+					work = append(work, e.Caller.Func)
+				}
+			}
+		}
+	}
+	p.mayStoreC[k] = out
+	return out
+}
+
+// storingCallBetween: some call in the function that may (transitively) assign field k can execute after load a and before load b.
+func (p *prover) storingCallBetween(k fieldKey, a, b ssa.Value) bool {
+	ai, ok1 := a.(ssa.Instruction)
+	bi, ok2 := b.(ssa.Instruction)
+	if !ok1 || !ok2 {
+		return true
+	}
+	ms := p.prog.mayStore(k)
+	cg := p.prog.CallGraph()
+	node := cg.Nodes[p.fn]
+	// call sites of this function that may reach a storing function
+	risky := map[ssa.Instruction]bool{}
+	if node != nil {
+		for _, e := range node.Out {
+			if e.Site != nil && e.Callee != nil && e.Callee.Func != nil && ms[e.Callee.Func] {
+				risky[e.Site] = true
+			}
+		}
+	}
+	for _, blk := range p.fn.Blocks {
+		for _, in := range blk.Instrs {
+			ci, isCall := in.(ssa.CallInstruction)
+			if !isCall {
+				continue
+			}
+			if _, isB := ci.Common().Value.(*ssa.Builtin); isB {
+				continue
+			}
+			// unresolved dynamic calls are risky as well
+			if !risky[in] {
+				if ci.Common().StaticCallee() != nil || ci.Common().IsInvoke() && node != nil && hasEdgeFor(node, in) {
+					continue
+				}
+				if _, isFn := ci.Common().Value.(*ssa.Function); isFn {
+					continue
+				}
+			}
+			after := in.Block() == ai.Block() && instrBefore(ai, in) || in.Block() != ai.Block() && reaches(ai.Block(), in.Block(), nil)
+			before := in.Block() == bi.Block() && instrBefore(in, bi) || in.Block() != bi.Block() && reaches(in.Block(), bi.Block(), nil)
+			if after && before {
+				return true
+			}
+		}
+	}
+	return false
+}
+
+func hasEdgeFor(n *callgraph.Node, site ssa.Instruction) bool {
+	for _, e := range n.Out {
+		if e.Site == site {
+			return true
+		}
+	}
+	return false
+}
+
+// noCallBetween: a and b are in the same block, a first, and nothing between them can run other code.
+func noCallBetween(a, b ssa.Value) bool {
+	ai, ok1 := a.(ssa.Instruction)
+	bi, ok2 := b.(ssa.Instruction)
+	if !ok1 || !ok2 || ai.Block() != bi.Block() {
+		return false
+	}
+	seen := false
+	for _, in := range ai.Block().Instrs {
+		if in == ai {
+			seen = true
+			continue
+		}
+		if in == bi {
+			return seen
+		}
+		if !seen {
+			continue
+		}
+		switch x := in.(type) {
+		case *ssa.Call:
+			if _, isB := x.Call.Value.(*ssa.Builtin); !isB {
+				return false
+			}
+		case *ssa.Go, *ssa.Defer:
+			return false
+		}
+	}
+	return false
 }
 
 // stableGlobal: a package variable of acra that no function other than a package initialiser ever stores to
